@@ -61,6 +61,7 @@ type contracts struct {
 	files  []string
 	hashes map[string]string
 	order  []string
+	missing []string // contracts whose function no longer exists
 }
 
 func (c *contracts) get(key string) *funcContract { return c.funcs[key] }
@@ -105,6 +106,14 @@ func loadContractFile(c *contracts, path string, pkgpath string) error {
 		}
 	}
 	var cur *funcContract
+	var fileProps []string
+	defer func() {
+		for _, fc := range c.funcs {
+			if fc.pkg == pkgpath && fc.props == nil {
+				fc.props = fileProps
+			}
+		}
+	}()
 	for _, r := range raws {
 		kw, rest := splitKw(r.text)
 		tag := ""
@@ -196,7 +205,11 @@ func loadContractFile(c *contracts, path string, pkgpath string) error {
 		case "pure":
 			cur.pure = true
 		case "props":
-			cur.props = strings.Fields(rest)
+			if cur == nil {
+				fileProps = strings.Fields(rest)
+			} else {
+				cur.props = strings.Fields(rest)
+			}
 		case "pred", "spec":
 			// pred name(a T, b U) = expr      spec name(a T) R = expr
 			k := strings.Index(rest, "(")
